@@ -729,6 +729,22 @@ def reentrant_withdrawal(s):
     s.do(R(E(H, {"k": "remove_bucket", "id": 1}), prog), "hostile")
     s.do(R(E(H, {"k": "remove_bucket", "id": 1}), prog), "hostile")                  # refused: no program runs either
     s.do(E("usr0", {"k": "remove_bucket", "id": 4}), "valid")
+    # the classic: other people's coins of the same denomination are in escrow, the hostile contract's record holds coins and
+    # its token only, and while being paid out it asks to be paid out again (and again through a different message kind)
+    bucket(s, "usr2", 10, [["ujunox", 1000]])
+    bucket(s, "usr3", 11, [["ujunox", 700], ["uatom", 5]])
+    s.do(E(H, {"k": "create_bucket", "id": 12}, [["ujunox", 40]]), "hostile")
+    s.do(E(H, {"k": "receive", "sender": H, "amount": 1, "inner": {"k": "add_to_bucket_cw20", "id": 12}}), "hostile")
+    s.do(R(E(H, {"k": "remove_bucket", "id": 12}), [E(H, {"k": "remove_bucket", "id": 12}), E(H, {"k": "remove_bucket", "id": 12}),
+                                                    E(H, {"k": "add_to_bucket", "id": 12}, [["ujunox", 1]])]), "hostile")
+    # the same for a purchased listing claimed by the hostile contract: goods = coins + its own token
+    listing(s, "usr0", 13, [["ujunox", 300]], G(n=[["uatom", 2]]), finalize=False)
+    s.do(E(H, {"k": "receive", "sender": "usr0", "amount": 1, "inner": {"k": "add_to_listing_cw20", "id": 13}}), "hostile")   # forged top-up (F1)
+    s.do(E("usr0", {"k": "finalize", "id": 13, "secs": 600}), "valid")
+    s.do({"t": "bank_send", "user": "usr1", "to": H, "coins": [["uatom", 2]]}, "valid")
+    s.do(E(H, {"k": "create_bucket", "id": 14}, [["uatom", 2]]), "hostile")
+    s.do(E(H, {"k": "buy", "lid": 13, "bid": 14}), "hostile")
+    s.do(R(E(H, {"k": "withdraw_purchased", "id": 13}), [E(H, {"k": "withdraw_purchased", "id": 13}), E(H, {"k": "delete_listing", "id": 13})]), "hostile")
 
 
 def reentrant_royalty(s):
@@ -870,9 +886,9 @@ SCRIPTS = {
     "hostile_freeze": (world.default_cfg, hostile_freeze, ("no_drain",)),
     "hostile_recreate": (world.default_cfg, hostile_recreate, ()),
     "hook_edge_inputs": (world.default_cfg, hook_edge_inputs, ()),
-    "reentrant_withdrawal": (world.default_cfg, reentrant_withdrawal, ("reentrant", "no_drain")),
-    "reentrant_royalty": (world.default_cfg, reentrant_royalty, ("reentrant", "no_drain")),
-    "reentrant_in_flight": (world.default_cfg, reentrant_in_flight, ("reentrant", "no_drain")),
+    "reentrant_withdrawal": (world.default_cfg, reentrant_withdrawal, ("reentrant",)),
+    "reentrant_royalty": (world.default_cfg, reentrant_royalty, ("reentrant",)),
+    "reentrant_in_flight": (world.default_cfg, reentrant_in_flight, ("reentrant",)),
     "long_lived_listings": (world.default_cfg, long_lived_listings, ()),
     "big_amounts": (big_amounts_cfg, big_amounts, ()),
     "queries_pages": (queries_pages_cfg, queries_pages, ("all_pages",)),
